@@ -18,7 +18,9 @@ import (
 type RC struct {
 	self     *Node
 	rootNode *Node
-	// CacheDex mirrors RCManager.dexBatch: the same *DexBatch object is returned for repeated (height, committee, withPoints=false) queries
+	// CacheDex mirrors RCManager.dexBatch (always on in production, default on here): the same *DexBatch OBJECT is returned for
+	// repeated (height, committee, withPoints=false) queries - callers mutate it (DexBatch.Hash() fills the receipt hash of an
+	// empty batch), so hit/miss patterns are observable. Switching it off models a transport that always decodes a fresh object.
 	CacheDex bool
 	dex      struct {
 		height, committee uint64
